@@ -416,13 +416,168 @@ theorem c15_epoch_spec_is_map (sp : SpecStore) (e e' m : Nat) (ns es : List KRec
     rw [h]
     by_cases hem : e' < m <;> simp [hem]
 
-/-- W: freezing an epoch that is already frozen replaces its block but bumps `epoch_count` and
-`total_size` again; after collecting everything the counters still say one epoch, 8 bytes. -/
+/-! ## the store's counters -/
+
+def UniqueKeys (bs : List (Nat × Block)) : Prop := bs.Pairwise (fun a b => a.1 ≠ b.1)
+
+/-- the counters say what the map holds. -/
+def CountInv (s : Store) : Prop :=
+  UniqueKeys s.blocks ∧ s.epochCount = s.blocks.length ∧ s.totalSize = sumSizes s.blocks
+
+theorem filter_ne_absent (bs : List (Nat × Block)) (e : Nat) (h : ∀ a ∈ bs, a.1 ≠ e) :
+    bs.filter (fun p => p.1 != e) = bs ∧ findBlock bs e = none := by
+  induction bs with
+  | nil => exact ⟨rfl, rfl⟩
+  | cons a rest ih =>
+    obtain ⟨k, b⟩ := a
+    have hk : k ≠ e := h (k, b) (by simp)
+    have := ih (fun a ha => h a (by simp [ha]))
+    simp [List.filter_cons, findBlock, hk, this.1, this.2]
+
+theorem filter_ne_split (bs : List (Nat × Block)) (e : Nat) (hu : UniqueKeys bs) :
+    match findBlock bs e with
+    | some b => (bs.filter (fun p => p.1 != e)).length + 1 = bs.length ∧
+        sumSizes (bs.filter (fun p => p.1 != e)) + b.compressedSize = sumSizes bs
+    | none => bs.filter (fun p => p.1 != e) = bs := by
+  induction bs with
+  | nil => simp [findBlock]
+  | cons a rest ih =>
+    obtain ⟨k, b⟩ := a
+    unfold UniqueKeys at hu ih
+    rw [List.pairwise_cons] at hu
+    by_cases hk : k = e
+    · subst hk
+      have := filter_ne_absent rest k (fun a ha => Ne.symm (hu.1 a ha))
+      simp [List.filter_cons, findBlock, this.1, sumSizes, Nat.add_comm]
+    · have := ih hu.2
+      simp only [findBlock, hk, if_false]
+      cases hf : findBlock rest e with
+      | none =>
+        rw [hf] at this
+        simp [List.filter_cons, hk, this]
+      | some b' =>
+        rw [hf] at this
+        simp only [List.filter_cons, bne_iff_ne, ne_eq, hk, not_false_eq_true, decide_true, if_true,
+          List.length_cons, sumSizes]
+        omega
+
+theorem sumSizes_partition (p : Nat × Block → Bool) (bs : List (Nat × Block)) :
+    sumSizes (bs.filter p) + sumSizes (bs.filter (fun x => !p x)) = sumSizes bs ∧
+    (bs.filter p).length + (bs.filter (fun x => !p x)).length = bs.length := by
+  induction bs with
+  | nil => simp [sumSizes]
+  | cons a rest ih =>
+    obtain ⟨k, b⟩ := a
+    by_cases hp : p (k, b) = true
+    · simp only [List.filter_cons, hp, if_true, Bool.not_true, Bool.false_eq_true, if_false, sumSizes,
+        List.length_cons]
+      constructor <;> omega
+    · have hp' : p (k, b) = false := by simpa using hp
+      simp only [List.filter_cons, hp', Bool.false_eq_true, if_false, Bool.not_false, if_true, sumSizes,
+        List.length_cons]
+      constructor <;> omega
+
+theorem countInv_freeze (s : Store) (e : Nat) (ns es : List KRec) (h : CountInv s) :
+    CountInv (s.freeze e ns es).1 := by
+  obtain ⟨hu, hc, ht⟩ := h
+  have hsplit := filter_ne_split s.blocks e hu
+  refine ⟨?_, ?_, ?_⟩
+  · unfold UniqueKeys at hu ⊢
+    simp only [Store.freeze, insertBlock]
+    rw [List.pairwise_cons]
+    refine ⟨?_, hu.filter _⟩
+    intro a ha
+    have := (List.mem_filter.mp ha).2
+    simp only [bne_iff_ne, ne_eq] at this
+    exact fun h' => this h'.symm
+  · simp only [Store.freeze, insertBlock, List.length_cons]
+    cases hf : findBlock s.blocks e with
+    | none => rw [hf] at hsplit; simp only [hsplit]; omega
+    | some b => rw [hf] at hsplit; simp only; omega
+  · simp only [Store.freeze, insertBlock, sumSizes]
+    cases hf : findBlock s.blocks e with
+    | none => rw [hf] at hsplit; simp only [hsplit]; omega
+    | some b => rw [hf] at hsplit; simp only; omega
+
+theorem countInv_gc (s : Store) (m : Nat) (h : CountInv s) : CountInv (s.gc m).1 := by
+  obtain ⟨hu, hc, ht⟩ := h
+  have hp := sumSizes_partition (fun p => decide (p.1 < m)) s.blocks
+  unfold Store.gc
+  simp only
+  by_cases hr : (s.blocks.filter (fun p => decide (p.1 < m))).length > 0
+  · rw [if_pos hr]
+    refine ⟨hu.filter _, ?_, ?_⟩
+    · simp only; omega
+    · simp only; omega
+  · rw [if_neg hr]; exact ⟨hu, hc, ht⟩
+
+theorem countInv_run (ops : List Op) : CountInv (Store.empty.run ops) := by
+  have : ∀ (ops : List Op) (s : Store), CountInv s → CountInv (s.run ops) := by
+    intro ops
+    induction ops with
+    | nil => intro s h; exact h
+    | cons op rest ih =>
+      intro s h
+      simp only [Store.run, List.foldl_cons]
+      apply ih
+      cases op with
+      | freeze e ns es => exact countInv_freeze s e ns es h
+      | gc m => exact countInv_gc s m h
+  exact this ops Store.empty ⟨List.Pairwise.nil, rfl, rfl⟩
+
+/-- F: after every history of `freeze_epoch` / `gc` (re-freezing included) `epoch_count()` is the
+number of retained epochs — the size of the map, `stats().epoch_count`, the size of the plain
+map — and `total_size()` is the sum of the retained blocks' sizes (`stats().total_compressed_bytes`). -/
+theorem c15_epoch_store_counters (ops : List Op) :
+    (Store.empty.run ops).epochCount = (Store.empty.run ops).blocks.length ∧
+    (Store.empty.run ops).epochCount = (Store.empty.run ops).stats.1 ∧
+    (Store.empty.run ops).epochCount = (specRun [] ops).length ∧
+    (Store.empty.run ops).totalSize = sumSizes (Store.empty.run ops).blocks ∧
+    (Store.empty.run ops).totalSize = (Store.empty.run ops).stats.2.2.2.1 := by
+  have h := countInv_run ops
+  have hr := c15_epoch_store_refines ops
+  unfold Rel at hr
+  refine ⟨h.2.1, h.2.1, ?_, h.2.2, h.2.2⟩
+  rw [h.2.1, hr, List.length_map]
+
+/-- F: once `gc` has removed every retained epoch both counters are back to zero. -/
+theorem c15_epoch_store_counters_zero (ops : List Op) (m : Nat)
+    (hall : ∀ p ∈ (Store.empty.run ops).blocks, p.1 < m) :
+    ((Store.empty.run ops).gc m).1.blocks = [] ∧
+    ((Store.empty.run ops).gc m).1.epochCount = 0 ∧
+    ((Store.empty.run ops).gc m).1.totalSize = 0 := by
+  have h := countInv_gc _ m (countInv_run ops)
+  have hb : ((Store.empty.run ops).gc m).1.blocks = [] := by
+    unfold Store.gc
+    simp only
+    split
+    · simp only [List.filter_eq_nil_iff]
+      intro a ha; simp [hall a ha]
+    · rename_i hr
+      have : (Store.empty.run ops).blocks = [] := by
+        cases hbs : (Store.empty.run ops).blocks with
+        | nil => rfl
+        | cons a rest =>
+          exfalso; apply hr
+          rw [hbs] at hall
+          rw [hbs]
+          have := hall a (by simp)
+          simp [List.filter_cons, this]
+      exact this
+  refine ⟨hb, ?_, ?_⟩
+  · rw [h.2.1, hb]; rfl
+  · rw [h.2.2, hb]; rfl
+
+/-- W (regression, the code before repair 086e8b7): freezing an epoch that is already frozen
+replaced its block but bumped `epoch_count` and `total_size` again; after collecting everything
+the counters still said one epoch, 8 bytes. The repaired `freeze` on the same history is exact. -/
 theorem c15_epoch_store_refreeze_witness :
     let ops := [Op.freeze 1 [(1, [1,1,0,0,0,0,0,0])] [], Op.freeze 1 [(2, [2,1,0,0,0,0,0,0])] []]
-    let s := Store.empty.run ops
+    let s := Old.run Store.empty ops
+    let t := Store.empty.run ops
     s.epochCount = 2 ∧ s.blocks.length = 1 ∧ s.totalSize = 16 ∧ sumSizes s.blocks = 8 ∧
-    (s.gc 2).1.blocks.length = 0 ∧ (s.gc 2).1.epochCount = 1 ∧ (s.gc 2).1.totalSize = 8 := by
+    (s.gc 2).1.blocks.length = 0 ∧ (s.gc 2).1.epochCount = 1 ∧ (s.gc 2).1.totalSize = 8 ∧
+    t.epochCount = 1 ∧ t.totalSize = 8 ∧ (t.gc 2).1.epochCount = 0 ∧ (t.gc 2).1.totalSize = 0 := by
   decide
 
 end Grafeo.Epoch
